@@ -32,7 +32,7 @@ MIN_NONTRIVIAL = {"quick": 40, "thorough": 1500}
 WORKERS = {"quick": 8, "thorough": 16}
 TIMEOUT = {"quick": 1200, "thorough": 7200}
 TAU = 1e-4
-KINDS = ["groupnorm", "layernorm", "vn", "maxnormpool", "max_pool_fn", "average_pool_fn", "mi_average_pool", "unpool"]
+KINDS = ["groupnorm", "layernorm", "vn", "maxnormpool", "max_pool_fn", "average_pool_fn", "mi_average_pool", "unpool", "gi_max_pool", "gi_average_pool"]
 INPUTS = ["normal", "normal", "normal", "zero", "constant", "onehot", "onechannel"]
 
 
@@ -130,6 +130,10 @@ def build(kind, D, rng, key_int):
         return per_image(lambda ch, k, p, x: geom.max_pool(D, ch, patch, True)), sig, sp, cfg, patch, False
     if kind == "average_pool_fn":
         return per_image(lambda ch, k, p, x: geom.average_pool(D, ch, patch)), sig, sp, cfg, patch, False
+    if kind == "gi_max_pool":
+        return per_image(lambda ch, k, p, x: geom.GeometricImage(ch, p, D, x.is_torus).max_pool(patch, True).data), sig, sp, cfg, patch, False
+    if kind == "gi_average_pool":
+        return per_image(lambda ch, k, p, x: geom.GeometricImage(ch, p, D, x.is_torus).average_pool(patch).data), sig, sp, cfg, patch, False
     if kind == "unpool":
         sp = tuple(int(v) for v in rng.integers(1, 4 if D == 2 else 3, size=D))
         cfg["upsample"] = True
@@ -157,8 +161,8 @@ def run(case, ctx):
             inputs = ["normal"] + [i for i in inputs if i != "normal"]
             for inp in inputs:
                 for attempt in range(4):
-                    x = mlgen.random_multi(rng, sig, D, sp, torus, kind=inp)
-                    if patch and kind in ("maxnormpool", "max_pool_fn") and inp == "normal" and any(mlgen.near_tie(v, D, patch) for v in x.data.values()):
+                    x = mlgen.random_multi(rng, sig, D, sp, torus, kind=inp, scale=float([1.0, 1.0, 1e-3, 1e3][int(rng.integers(4))]))
+                    if patch and kind in ("maxnormpool", "max_pool_fn", "gi_max_pool") and inp == "normal" and any(mlgen.near_tie(v, D, patch) for v in x.data.values()):
                         redraws += 1
                         continue
                     y = f(x)
